@@ -49,7 +49,7 @@ type Storer struct {
 	S *Stack
 }
 
-func (s *Storer) db() *DB { return s.S.W.DB }
+func (s *Storer) db(ctx context.Context) *DB { return s.S.worldB(BrowserOf(ctx)).DB }
 
 func (s *Storer) mk(r Row) authboss.User {
 	if s.S.Cfg.OneTimeUser {
@@ -63,12 +63,12 @@ func (s *Storer) fault(op string, notFound error) error {
 }
 
 // Load returns a fresh copy.
-func (s *Storer) Load(_ context.Context, key string) (authboss.User, error) {
+func (s *Storer) Load(ctx context.Context, key string) (authboss.User, error) {
 	if err := s.fault("Load", authboss.ErrUserNotFound); err != nil {
 		return nil, err
 	}
-	defer s.S.guard()()
-	r, ok := s.db().Users[key]
+	defer s.S.guardB(BrowserOf(ctx))()
+	r, ok := s.db(ctx).Users[key]
 	s.S.note("Load %s %v %+v", key, ok, r)
 	if !ok {
 		return nil, authboss.ErrUserNotFound
@@ -77,38 +77,38 @@ func (s *Storer) Load(_ context.Context, key string) (authboss.User, error) {
 }
 
 // Save stores a copy; never creates.
-func (s *Storer) Save(_ context.Context, user authboss.User) error {
+func (s *Storer) Save(ctx context.Context, user authboss.User) error {
 	if err := s.fault("Save", authboss.ErrUserNotFound); err != nil {
 		return err
 	}
-	defer s.S.guard()()
+	defer s.S.guardB(BrowserOf(ctx))()
 	r, ok := rowOf(user)
 	if !ok {
 		return errors.New("storer: foreign user type")
 	}
-	_, ok = s.db().Users[r.PID]
+	_, ok = s.db(ctx).Users[r.PID]
 	s.S.note("Save %s %v", r.PID, ok)
 	if !ok {
 		return authboss.ErrUserNotFound
 	}
-	s.db().Users[r.PID] = r.Copy()
+	s.db(ctx).Users[r.PID] = r.Copy()
 	return nil
 }
 
 // New creates a blank user (not persisted).
-func (s *Storer) New(_ context.Context) authboss.User { return s.mk(Row{}) }
+func (s *Storer) New(ctx context.Context) authboss.User { return s.mk(Row{}) }
 
 // Create inserts; never overwrites.
-func (s *Storer) Create(_ context.Context, user authboss.User) error {
+func (s *Storer) Create(ctx context.Context, user authboss.User) error {
 	if err := s.fault("Create", authboss.ErrUserFound); err != nil {
 		return err
 	}
-	defer s.S.guard()()
+	defer s.S.guardB(BrowserOf(ctx))()
 	r, ok := rowOf(user)
 	if !ok {
 		return errors.New("storer: foreign user type")
 	}
-	_, exists := s.db().Users[r.PID]
+	_, exists := s.db(ctx).Users[r.PID]
 	s.S.note("Create %s %v", r.PID, exists)
 	if exists {
 		return authboss.ErrUserFound
@@ -122,19 +122,19 @@ func (s *Storer) Create(_ context.Context, user authboss.User) error {
 	if !s.S.Cfg.Has("confirm") {
 		row.Confirmed = true
 	}
-	s.db().Users[row.PID] = row
+	s.db(ctx).Users[row.PID] = row
 	return nil
 }
 
 // LoadByConfirmSelector finds by selector.
-func (s *Storer) LoadByConfirmSelector(_ context.Context, selector string) (authboss.ConfirmableUser, error) {
+func (s *Storer) LoadByConfirmSelector(ctx context.Context, selector string) (authboss.ConfirmableUser, error) {
 	if err := s.fault("LoadByConfirmSelector", authboss.ErrUserNotFound); err != nil {
 		return nil, err
 	}
-	defer s.S.guard()()
+	defer s.S.guardB(BrowserOf(ctx))()
 	// plain equality, like `WHERE confirm_selector = ?`: an empty selector matches rows without one
-	for _, pid := range s.db().PIDs() {
-		if r := s.db().Users[pid]; r.ConfirmSelector == selector {
+	for _, pid := range s.db(ctx).PIDs() {
+		if r := s.db(ctx).Users[pid]; r.ConfirmSelector == selector {
 			s.S.note("LoadByConfirmSelector %+v", r)
 			return s.mk(r).(authboss.ConfirmableUser), nil
 		}
@@ -143,13 +143,13 @@ func (s *Storer) LoadByConfirmSelector(_ context.Context, selector string) (auth
 }
 
 // LoadByRecoverSelector finds by selector.
-func (s *Storer) LoadByRecoverSelector(_ context.Context, selector string) (authboss.RecoverableUser, error) {
+func (s *Storer) LoadByRecoverSelector(ctx context.Context, selector string) (authboss.RecoverableUser, error) {
 	if err := s.fault("LoadByRecoverSelector", authboss.ErrUserNotFound); err != nil {
 		return nil, err
 	}
-	defer s.S.guard()()
-	for _, pid := range s.db().PIDs() {
-		if r := s.db().Users[pid]; r.RecoverSelector == selector {
+	defer s.S.guardB(BrowserOf(ctx))()
+	for _, pid := range s.db(ctx).PIDs() {
+		if r := s.db(ctx).Users[pid]; r.RecoverSelector == selector {
 			s.S.note("LoadByRecoverSelector %+v", r)
 			return s.mk(r).(authboss.RecoverableUser), nil
 		}
@@ -158,32 +158,32 @@ func (s *Storer) LoadByRecoverSelector(_ context.Context, selector string) (auth
 }
 
 // AddRememberToken adds a (pid, token) row.
-func (s *Storer) AddRememberToken(_ context.Context, pid, token string) error {
+func (s *Storer) AddRememberToken(ctx context.Context, pid, token string) error {
 	if err := s.fault("AddRememberToken", nil); err != nil {
 		return err
 	}
-	defer s.S.guard()()
-	s.db().Tokens[pid] = append(s.db().Tokens[pid], token)
+	defer s.S.guardB(BrowserOf(ctx))()
+	s.db(ctx).Tokens[pid] = append(s.db(ctx).Tokens[pid], token)
 	return nil
 }
 
 // DelRememberTokens removes all of a pid's tokens.
-func (s *Storer) DelRememberTokens(_ context.Context, pid string) error {
+func (s *Storer) DelRememberTokens(ctx context.Context, pid string) error {
 	if err := s.fault("DelRememberTokens", nil); err != nil {
 		return err
 	}
-	defer s.S.guard()()
-	delete(s.db().Tokens, pid)
+	defer s.S.guardB(BrowserOf(ctx))()
+	delete(s.db(ctx).Tokens, pid)
 	return nil
 }
 
 // UseRememberToken finds the pair and deletes it.
-func (s *Storer) UseRememberToken(_ context.Context, pid, token string) error {
+func (s *Storer) UseRememberToken(ctx context.Context, pid, token string) error {
 	if err := s.fault("UseRememberToken", authboss.ErrTokenNotFound); err != nil {
 		return err
 	}
-	defer s.S.guard()()
-	toks := s.db().Tokens[pid]
+	defer s.S.guardB(BrowserOf(ctx))()
+	toks := s.db(ctx).Tokens[pid]
 	for i, t := range toks {
 		if t == token {
 			if !s.S.Conc {
@@ -192,9 +192,9 @@ func (s *Storer) UseRememberToken(_ context.Context, pid, token string) error {
 			s.S.note("UseRememberToken ok")
 			n := append(append([]string(nil), toks[:i]...), toks[i+1:]...)
 			if len(n) == 0 {
-				delete(s.db().Tokens, pid)
+				delete(s.db(ctx).Tokens, pid)
 			} else {
-				s.db().Tokens[pid] = n
+				s.db(ctx).Tokens[pid] = n
 			}
 			return nil
 		}
@@ -203,14 +203,14 @@ func (s *Storer) UseRememberToken(_ context.Context, pid, token string) error {
 }
 
 // NewFromOAuth2 looks the identity up or builds a new (unsaved) user.
-func (s *Storer) NewFromOAuth2(_ context.Context, provider string, details map[string]string) (authboss.OAuth2User, error) {
+func (s *Storer) NewFromOAuth2(ctx context.Context, provider string, details map[string]string) (authboss.OAuth2User, error) {
 	if err := s.fault("NewFromOAuth2", nil); err != nil {
 		return nil, err
 	}
-	defer s.S.guard()()
+	defer s.S.guardB(BrowserOf(ctx))()
 	uid := details["uid"]
 	pid := authboss.MakeOAuth2PID(provider, uid)
-	if r, ok := s.db().Users[pid]; ok {
+	if r, ok := s.db(ctx).Users[pid]; ok {
 		return s.mk(r).(authboss.OAuth2User), nil
 	}
 	r := Row{PID: pid, OAuth2UID: uid, OAuth2Provider: provider, Email: details["email"], Confirmed: true}
@@ -218,16 +218,16 @@ func (s *Storer) NewFromOAuth2(_ context.Context, provider string, details map[s
 }
 
 // SaveOAuth2 upserts.
-func (s *Storer) SaveOAuth2(_ context.Context, user authboss.OAuth2User) error {
+func (s *Storer) SaveOAuth2(ctx context.Context, user authboss.OAuth2User) error {
 	if err := s.fault("SaveOAuth2", nil); err != nil {
 		return err
 	}
-	defer s.S.guard()()
+	defer s.S.guardB(BrowserOf(ctx))()
 	r, ok := rowOf(user)
 	if !ok {
 		return errors.New("storer: foreign user type")
 	}
-	s.db().Users[r.PID] = r.Copy()
+	s.db(ctx).Users[r.PID] = r.Copy()
 	return nil
 }
 
